@@ -10,6 +10,6 @@ log=open('/tmp/baseline_test.log',errors='replace').read()
 passed=set(re.findall(r'^(Testing .*?)\.\.\.passed', log, re.M))
 missing=[t for t in base if t not in passed]
 print("baseline: %d/%d stable tests passed" % (len(base)-len(missing), len(base)))
-for m in missing: print("  MISSING:", m)
+print("  first missing:", missing[:3])
 sys.exit(1 if missing else 0)
 PY
